@@ -133,9 +133,9 @@ Proof. rewrite skipn_app, Nat.sub_diag, skipn_all. reflexivity. Qed.
 (* ------------------------------------------------------------------ the property name *)
 Definition key_ok (key : str) : Prop := key <> [] /\ Forall (fun c => is_alpha c = true) key.
 
-Lemma cconsume_key key after :
+Lemma cconsume_key at_start key after :
   key_ok key -> cpeek_p is_cliteral after = false ->
-  cconsume true true (key ++ after) = CTok (CLiteral key) (length key).
+  cconsume true at_start (key ++ after) = CTok (CLiteral key) (length key).
 Proof.
   intros [Hne Hall] Hafter. destruct key as [|k0 ktl]; [contradiction|].
   inversion Hall as [|? ? Hk0 Htl]; subst.
@@ -481,18 +481,20 @@ Lemma cconsume_val short at_start v after :
   val_ok v ->
   match after with
   | [] => True
-  | c :: _ => c = c_dash \/ c = c_excl \/ (has_unit v = true /\ starter c)
+  | c :: _ => c = c_dash \/ c = c_excl \/ (has_unit v = true /\ starter c) \/ c = c_plus
   end ->
   cconsume short at_start (val_text v ++ after) = CTok (val_kind v) (length (val_text v)).
 Proof.
   intros Hok Ha. destruct v as [n|c]; cbn [val_ok val_text val_kind has_unit] in *.
   - apply cconsume_number; [exact Hok|]. unfold num_after_ok. destruct after as [|x r]; [exact I|].
-    destruct Ha as [->|[->|[Hu Hs]]].
+    destruct Ha as [ -> |[ -> |[[Hu Hs]| -> ]]].
     + split; [reflexivity|]. intros _. repeat split; reflexivity.
     + split; [reflexivity|]. intros _. repeat split; reflexivity.
     + split; [apply starter_facts; exact Hs|]. intros E. rewrite E in Hu. discriminate.
+    + split; [reflexivity|]. intros _. repeat split; reflexivity.
   - apply cconsume_color; [exact Hok|]. unfold col_after_ok. destruct after as [|x r]; [exact I|].
-    destruct Ha as [->|[->|[Hu _]]]; [repeat split; reflexivity|repeat split; reflexivity|discriminate].
+    destruct Ha as [ -> |[ -> |[[Hu _]| -> ]]]; [repeat split; reflexivity|repeat split; reflexivity|discriminate|
+                                               repeat split; reflexivity].
 Qed.
 
 Lemma ctoks_bang src acc pos :
@@ -541,7 +543,7 @@ Proof.
     assert (Hc : cconsume (Nat.eqb 0 0 && negb false) (Nat.eqb pos 0) (val_text v ++ conn v ++ R) =
                  CTok (val_kind v) n).
     { apply cconsume_val; [exact Hv|]. unfold conn. destruct (has_unit v) eqn:Eu; cbn [app].
-      - rewrite ER. right. right. split; [reflexivity|exact Hst].
+      - rewrite ER. right. right. left. split; [reflexivity|exact Hst].
       - left. reflexivity. }
     rewrite (ctoks_round src false 0 acc pos _ _ n Hc Hnb). rewrite Hforce.
     subst n. rewrite skipn_app_exact.
